@@ -237,3 +237,87 @@ def generate(rng, n, count=None):
         out.append(g)
         fam.append(names[i])
     return out, fam
+
+
+# ---- three-way cells: a shift and two or more reductions on one token ------------------------------------
+# (used by C03 only, through generate_three_way: the families above and their random stream stay as they are)
+
+def three_way_expr(rng):
+    """S: E | L f 'n' (| M f' 'n');  L: E o E %prec ?;  (M: E o E %prec ?;)  E: E o E | … | 'n';
+    the state after E o E offers, on an operator f: the shift, the reduction of L (and M) and the
+    reduction of E: E o E — with random levels / kinds / missing precedences and random rule order
+    (which production is 'declared earlier' changes)"""
+    ops = rng.sample(OPS, rng.randint(1, 3))
+    pseudo = rng.sample(PSEUDO, rng.randint(1, 2))
+    precs = random_lines(rng, [o for o in ops if rng.random() < 0.8] + [p for p in pseudo if rng.random() < 0.9],
+                         max_per_line=2)
+    dec = declared(precs)
+    o1 = rng.choice(ops)
+
+    def pr(a, prob):
+        return (a, rng.choice(dec)) if dec and rng.random() < prob else a
+    salts = [[r('E')]]
+    lrules = []
+    for nme in ["L", "M"][:rng.choice([1, 1, 2])]:
+        salts.append([r(nme), t(rng.choice(ops)), t('n')])
+        lrules.append((nme, [pr([r('E'), t(o1), r('E')], 0.75)]))
+    ealts = [pr([r('E'), t(o), r('E')], 0.25) for o in ops] + [[t('n')]]
+    rng.shuffle(ealts)
+    rest = lrules + [("E", ealts)]
+    rng.shuffle(rest)
+    return Gram(ops + ['n'] + pseudo, [("S", salts)] + rest, precs=precs, start="S")
+
+
+def three_way_flat(rng):
+    """S: A 'y' | B 'y' (| C 'y') | 'x' 'y' 'z';  A: 'x' %prec ?;  B: 'x' %prec ?; …  — after 'x' the
+    token 'y' can be shifted and every one of A, B(, C) can be reduced"""
+    names = ["A", "B", "C"][:rng.randint(2, 3)]
+    pseudo = rng.sample(PSEUDO, rng.randint(0, 2))
+    precs = random_lines(rng, [x for x in ['x', 'y'] if rng.random() < 0.8] + pseudo, max_per_line=2)
+    dec = declared(precs)
+    salts = [[r(n), t('y')] for n in names] + [[t('x'), t('y'), t('z')]]
+    rng.shuffle(salts)
+    rules = [(n, [([t('x')], rng.choice(dec)) if dec and rng.random() < 0.6 else [t('x')]]) for n in names]
+    rng.shuffle(rules)
+    return Gram(['x', 'y', 'z'] + pseudo, [("S", salts)] + rules, precs=precs, start="S")
+
+
+def corpus_three_way():
+    """the three grammars of the finding (see known_findings.json, C03-three-way-cell)"""
+    gs = []
+    # (a) %left lost: Yacc reduces E: E '+' E, nothing reported
+    gs.append(Gram(['+', 'n', 'LOW'], [("S", [[r('E')], [r('L'), t('+'), t('n')]]),
+                                       ("L", [([r('E'), t('+'), r('E')], 'LOW')]),
+                                       ("E", [[r('E'), t('+'), r('E')], [t('n')]])],
+                   precs=[("nonassoc", ['LOW']), ("left", ['+'])], start="S"))
+    # (b) %nonassoc lost: Yacc's entry is the error entry
+    gs.append(Gram(['<', 'n', 'LOW'], [("S", [[r('E')], [r('L'), t('<'), t('n')]]),
+                                       ("L", [([r('E'), t('<'), r('E')], 'LOW')]),
+                                       ("E", [[r('E'), t('<'), r('E')], [t('n')]])],
+                   precs=[("nonassoc", ['LOW']), ("nonassoc", ['<'])], start="S"))
+    # (c) the default-rule pair is reported as the wrong kind
+    gs.append(Gram(['+', 'n', 'x', 'LOW'], [("S", [[r('E')], [r('L'), t('+'), t('n')]]),
+                                            ("L", [([r('E'), t('x'), r('E')], 'LOW')]),
+                                            ("E", [[r('E'), t('x'), r('E')], [r('E'), t('+'), r('E')], [t('n')]])],
+                   precs=[("nonassoc", ['LOW']), ("left", ['+'])], start="S"))
+    return gs
+
+
+def generate_three_way(rng, n, seen=()):
+    """fixed corpus first, then n random grammars of the two three-way families"""
+    out = list(corpus_three_way())
+    fam = ["corpus_three_way"] * len(out)
+    seen = set(seen) | set(g.render() for g in out)
+    guard = 0
+    while len(out) < n + 3 and guard < 50 * n:
+        guard += 1
+        name, f = rng.choice([("three_way_expr", three_way_expr), ("three_way_expr", three_way_expr),
+                              ("three_way_flat", three_way_flat)])
+        g = f(rng)
+        k = g.render()
+        if k in seen:
+            continue
+        seen.add(k)
+        out.append(g)
+        fam.append(name)
+    return out, fam
